@@ -261,7 +261,8 @@ pub fn run_case(case: &Value, _extra: &[String]) -> Value {
 // ------------------------------------------------------------------------------------------- lit (C14)
 
 fn lit_on<S: Store>(case: &Value) -> Value {
-    let src = case["src"].as_str().unwrap_or("");
+    let src_owned = crate::compile::src_of(case);
+    let src = src_owned.as_str();
     learn_names(src);
     let mut data = S::fresh(Host::default());
     let mut out = serde_json::Map::new();
@@ -296,9 +297,17 @@ fn lit_on<S: Store>(case: &Value) -> Value {
                 }
                 Ok(GarnishDataType::Symbol) => {
                     let s = data.get_symbol(a).unwrap_or(0);
-                    let name = data.sym_name(s);
-                    out.insert("symname".into(), match name { Some(n) => json!(n.chars().map(|c| c as u32).collect::<Vec<_>>()), None => json!([-1]) });
-                    out.insert("symhash_ok".into(), json!(s == garnish_lang::simple::symbol_value(case["name"].as_str().unwrap_or(""))));
+                    match guarded(|| data.sym_name(s)) {
+                        Ok(name) => {
+                            out.insert("symname".into(), match name { Some(n) => json!(n.chars().map(|c| c as u32).collect::<Vec<_>>()), None => json!([-1]) });
+                        }
+                        Err(m) => {
+                            out.insert("symname".into(), json!([-2]));
+                            out.insert("symname_panic".into(), json!(m));
+                        }
+                    }
+                    let nm: String = case["name"].as_array().map(|a| a.iter().map(|c| char::from_u32(c.as_u64().unwrap_or(63) as u32).unwrap_or('?')).collect()).unwrap_or_default();
+                    out.insert("symhash_ok".into(), json!(s == garnish_lang::simple::symbol_value(&nm)));
                 }
                 _ => {}
             }
